@@ -53,7 +53,7 @@ class Cell(object):
 class Ownership(Machine):
     PROPERTY = "C06"
     NAME = "ownership"
-    BUDGET = {"quick": {"runs": 20000, "wall": 80, "digests": 24, "block": 50},
+    BUDGET = {"quick": {"runs": 30000, "wall": 80, "digests": 24, "block": 50},
               "thorough": {"runs": 400000, "wall": 840, "digests": 96, "block": 200}}
     LEVEL = {"quick": "exploration", "thorough": "exploration"}
     RULE = ("seeded histories over a pool of landmark owners (8 shape classes, 3 image classes), free landmark "
@@ -77,7 +77,7 @@ class Ownership(Machine):
                        "edit_value_after_assign", "edit_stored_group", "copy_pair_static_sharing_checked",
                        "mutator_on_copy", "transform_owner", "non_pointcloud_value_rejected", "copy_of_copy",
                        "apply_on_copy_pair", "apply_repeated_after_other_activity", "alignment_parameter_update",
-                       "own_group_stored_under_second_name")
+                       "own_group_stored_under_second_name", "owner_taken_to_another_dimensionality")
 
     @classmethod
     def swarm(cls, rng, tier):
@@ -447,14 +447,26 @@ class Ownership(Machine):
             return
         if not self._dims_consistent(owner.obj):
             return   # the manager does not compare its groups with the owner's own dimensionality (not claimed)
-        t = gen.homog_transform(["Affine", "Similarity", "Translation", "Rotation"][op["how"] % 4], op["seed"], owner.d)
+        drop = owner.d == 3 and op["how"] >= 3 and owner.kind in ("PointCloud", "PointUndirectedGraph", "PointDirectedGraph",
+                                                                   "LabelledPointUndirectedGraph")
+        if drop:
+            # a dimension-changing transform: the owner and every landmark group become 2D
+            if owner.groups is not None and not owner.groups:
+                v3 = PointCloud(rs(op["seed"] ^ 0x77).rand(4, 3))
+                owner.obj.landmarks["pre"] = v3          # make sure there is a 3D group to take along
+                owner.groups["pre"] = dg(v3)
+                owner.digest = dg(owner.obj)
+            t = WithDims([0, 1])
+            self.ctx.probe("owner_taken_to_another_dimensionality")
+        else:
+            t = gen.homog_transform(["Affine", "Similarity", "Translation", "Rotation"][op["how"] % 4], op["seed"], owner.d)
         try:
             r = t.apply(owner.obj)
         except Exception as ex:
             ctx.fail("copy", "apply_raised_" + owner.kind, repr(ex))
             return ()
         ctx.probe("transform_owner")
-        cell = Cell(r, owner.role, owner.kind, owner.d)
+        cell = Cell(r, owner.role, owner.kind, 2 if drop else owner.d)
         if owner.groups is not None:
             cell.groups = OrderedDict()
             m, m0 = r.landmarks, owner.obj.landmarks
@@ -466,6 +478,23 @@ class Ownership(Machine):
                 cell.groups[nm] = dg(m[nm])
             cell.had_dim = getattr(owner, "had_dim", None)
         self._static_sharing(r, owner.obj, "transformed_" + owner.kind, ())
+        if drop and cell.groups:
+            # the manager of the 2D result holds 2D groups only: it must take another 2D group and refuse a 3D one
+            g2 = rs(op["seed"] ^ 0x51)
+            m = r.landmarks
+            v2 = PointCloud(g2.rand(3, 2))
+            try:
+                m["after_drop"] = v2
+                cell.groups["after_drop"] = dg(v2)
+            except Exception as ex:
+                ctx.fail("manager", "refused_group_of_its_own_dimensionality",
+                         "after a 3D->2D transform of the owner the manager refused a 2D group: %r" % (ex,))
+            try:
+                m["bad"] = PointCloud(g2.rand(3, 3))
+                ctx.fail("manager", "accepted_second_dimensionality", "a 3D group was stored next to 2D groups after a 3D->2D transform")
+            except ValueError:
+                ctx.ok()
+            cell.digest = dg(r)
         self._put(cell, op["dst"])
         return ()
 
